@@ -103,7 +103,7 @@ func verifSupported(r *Rule) bool {
 func verifValidList(l []*Rule, res string) []Rule {
 	var out []Rule
 	for _, r := range l {
-		if r != nil && r.Resource == res && IsValidRule(r) == nil && verifSupported(r) {
+		if r != nil && r.Resource == res && verifIsValid(r) && verifSupported(r) {
 			out = append(out, *r)
 		}
 	}
@@ -185,4 +185,11 @@ func VerifC13() {
 		rt.Assert(len(GetRules()) == total, "GetRules reports exactly the enforced rules")
 	}
 	rt.Reach("c13.done")
+}
+
+// verifIsValid asks the module's validity check about a throw-away copy: the reference must not depend on
+// (or be changed by) anything the check does to the object it is given.
+func verifIsValid(r *Rule) bool {
+	c := *r
+	return IsValidRule(&c) == nil
 }
